@@ -23,6 +23,8 @@ RULE = (
 ASSUMPTIONS = [
     "float64, CPU; tolerance 1e-10*max(1,|x|) (same arithmetic, different call structure)",
     "stimuli are supplied with data_stimulate per segment (a stored stimulus always restarts at sample 0)",
+    "in 60% of the cases an initial state (v or a gate) is trainable or data_set and passed to every call; the continued run must "
+    "start from the returned states, not from the trainable value (integrate docstring: all_states overrides trainable initial states)",
     "open finding F6: with prod(checkpoint_lengths) > steps and return_states=True the returned states are those after "
     "prod-many steps; for such runs only the returned-state clause and continuation from it are excluded, recordings are still judged",
 ]
@@ -74,7 +76,9 @@ def _spec(draw, tier):
     nseg = draw(st.integers(2, 3)) if n >= 3 else 2
     cuts = sorted(draw(st.sets(st.integers(1, n - 1), min_size=nseg - 1, max_size=nseg - 1)))
     segs = [b - a for a, b in zip([0] + cuts, cuts + [n])]
-    return {"morph": morph, "channels": chans, "edges": edges, "stim": stim, "nsteps": n, "segments": segs,
+    init = {"mode": draw(st.sampled_from(["none", "none", "trainable_v", "trainable_gate", "data_set_v"])),
+            "rows": sorted(draw(st.sets(st.integers(0, N - 1), min_size=1, max_size=2))), "val": draw(fl(-70.0, -45.0)), "gval": draw(fl(0.1, 0.9))}
+    return {"morph": morph, "channels": chans, "edges": edges, "stim": stim, "nsteps": n, "segments": segs, "init": init,
             "ckpt_full": draw(_ckpt(n)), "ckpt_segs": [draw(_ckpt(s)) for s in segs],
             "dt": draw(st.sampled_from([0.025, 0.05])), "solver": draw(st.sampled_from(["bwd_euler", "bwd_euler", "crank_nicolson", "fwd_euler"])),
             "backend": draw(st.sampled_from(gn.BACKENDS))}
@@ -95,11 +99,13 @@ def record_everything(m, spec):
         pre = c["name"] or c["mech"]
         for g in R2.CHANNELS[c["mech"]]["states"]:
             gn.view_of(m, c["rows"]).record(f"{pre}_{g}", verbose=False)
+        gn.view_of(m, c["rows"]).record(R2.CHANNELS[c["mech"]]["current_name"].format(name=pre), verbose=False)
     types = sorted({e["type"] for e in spec["edges"]})
     for t in types:
         ids = [i for i, e in enumerate(spec["edges"]) if e["type"] == t]
         for g in R2.SYNAPSES[t]["states"]:
             m.select(edges=ids).record(f"{t}_{g}", verbose=False)
+        m.select(edges=ids).record(f"i_{t}", verbose=False)
     return [(s, int(i)) for i, s in zip(m.recordings["rec_index"], m.recordings["state"])]
 
 
@@ -121,6 +127,22 @@ def judge(spec, tier="quick"):
         return out
     recs = record_everything(m, spec)
     N = len(m.nodes)
+    # optional trainable / data_set initial state, passed to EVERY call (the docstring of integrate says
+    # that `all_states` overrides trainable initial states)
+    init = spec.get("init", {"mode": "none"})
+    params, pstate = [], None
+    if init["mode"] == "trainable_v":
+        gn.view_of(m, init["rows"]).make_trainable("v", verbose=False)
+        params = [{"v": jnp.asarray([float(init["val"])] * len(m.get_parameters()[0]["v"]))}]
+    elif init["mode"] == "trainable_gate" and spec["channels"] and R2.CHANNELS[spec["channels"][0]["mech"]]["states"]:
+        c0 = spec["channels"][0]
+        key = f"{c0['name'] or c0['mech']}_{list(R2.CHANNELS[c0['mech']]['states'])[0]}"
+        gn.view_of(m, c0["rows"][:1]).make_trainable(key, verbose=False)
+        params = [{key: jnp.asarray([float(init["gval"])])}]
+    elif init["mode"] == "data_set_v":
+        pstate = gn.view_of(m, init["rows"]).data_set("v", float(init["val"]), None)
+    kw.update(params=params, param_state=pstate)
+    out.classes.append("init:" + init["mode"])
 
     def stimuli(a, b):
         ds = None
@@ -204,7 +226,7 @@ def judge(spec, tier="quick"):
     # (2) manual stepping
     def manual():
         init_fn, step_fn = build_init_and_step_fn(m, voltage_solver=kw["voltage_solver"], solver=spec["solver"])
-        states, params = init_fn([], None, None, dt)
+        states, params = init_fn(kw["params"], None, kw["param_state"], dt)
         ds = stimuli(0, n)
         ext = {"i": jnp.asarray(ds[1])}
         inds = {"i": jnp.asarray(ds[2].index.to_numpy())}
@@ -227,8 +249,8 @@ def judge(spec, tier="quick"):
 
 def _idx(m, state, i):
     """Position of global index i inside the simulated array of `state` (per-type arrays for synaptic states)."""
-    if state in m.synapse_state_names:
-        t = state.rsplit("_", 1)[0]
+    if state in m.synapse_state_names or state in m.synapse_current_names:
+        t = state[2:] if state in m.synapse_current_names else state.rsplit("_", 1)[0]
         ids = m.edges.index[m.edges["type"] == t].to_numpy()
         return int(np.flatnonzero(ids == i)[0])
     return int(i)
@@ -239,8 +261,9 @@ def _returned_state_mismatch(states, recs, last_col, spec, tol):
 
     for k, (s, i) in enumerate(recs):
         arr = np.asarray(states[s], float)
-        if s.split("_")[0] in [e["type"] for e in spec["edges"]] and s not in ("v",):
-            t = s.rsplit("_", 1)[0]
+        types = [e["type"] for e in spec["edges"]]
+        if (s.split("_")[0] in types or s[2:] in types) and s not in ("v",):
+            t = s[2:] if s[2:] in types else s.rsplit("_", 1)[0]
             ids = [j for j, e in enumerate(spec["edges"]) if e["type"] == t]
             pos = ids.index(i)
         else:
